@@ -34,8 +34,8 @@ gen_durregex.register()     # translate.main() regenerates Gen/DurRegex.lean on 
 PROP = "C10"
 LEAN_MODULES = ["IsoDT.Props.C10"]
 REQUIRED_THEOREMS = ["IsoDT.Props.C10." + n for n in (
-    "C10_roundtrip", "C10_designators", "C10_designators_weeks", "C10_alt",
-    "C10_roundtrip_counter_beyond_binary64")]
+    "C10_roundtrip", "C10_designators", "C10_designators_weeks", "C10_alt", "C10_alt_canonical",
+    "C10_str_negative", "C10_roundtrip_counter_beyond_binary64", "C10_mixed_sign_unparseable_example")]
 RULE = ("integer Durations: every absent/small/boundary pattern of the six units x sign + week form + "
         "magnitudes up to 10^40 (hours/minutes/seconds beyond 2^53 only where exactly representable, or "
         "when the binary64 finding is registered); designator strings built from structured fields with "
@@ -618,7 +618,7 @@ class DStr(Op):
     shard = None
 
     def gen(self, rng, tier, boost):
-        n = 1500 * boost if tier == "quick" else 12000 * boost
+        n = 4000 * boost if tier == "quick" else 12000 * boost
         for _ in range(n):
             yield (rng.randrange(2),) + gen_intdur(rng, mixed=rng.random() < 0.4, allow_unrepr=True)
 
@@ -655,7 +655,7 @@ class DRoundTrip(Op):
             pats = [p for k, p in enumerate(pats) if k % 3 == off or p[0] == "W"]
         for k, d in enumerate(gens.shard_filter(pats, self.shard)):
             yield (MODES[k % 4], k % 2) + d
-        n = 2500 * boost if tier == "quick" else 15000 * boost
+        n = 6000 * boost if tier == "quick" else 15000 * boost
         for _ in range(n):
             yield (gens.mode(rng), rng.randrange(2)) + gen_intdur(
                 rng, allow_unrepr=unrepr, exact_only=self.exact_only and not unrepr)
@@ -730,7 +730,7 @@ class DParse(Op):
     def gen(self, rng, tier, boost):
         for k, s in enumerate(gens.shard_filter(HAND_STRINGS, self.shard)):
             yield ("greg", s, "")
-        n = 2500 * boost if tier == "quick" else 20000 * boost
+        n = 8000 * boost if tier == "quick" else 20000 * boost
         for _ in range(n):
             text, want = gen_designator(rng)
             yield (gens.mode(rng), text, want)
@@ -793,7 +793,7 @@ class DAlt(Op):
     shard = None
 
     def gen(self, rng, tier, boost):
-        n = 1500 * boost if tier == "quick" else 12000 * boost
+        n = 4000 * boost if tier == "quick" else 12000 * boost
         for _ in range(n):
             yield (gens.mode(rng),) + gen_alt(rng)
         if tier != "quick":
@@ -858,7 +858,7 @@ class DRegex(Op):
                 yield (i, s)
                 if s.startswith("-"):
                     yield (i, s[1:])
-        n = 2000 * boost if tier == "quick" else 15000 * boost
+        n = 6000 * boost if tier == "quick" else 15000 * boost
         for _ in range(n):
             r = rng.random()
             if r < 0.45:
@@ -960,7 +960,7 @@ class DFloat(Op):
     model = False
 
     def gen(self, rng, tier, boost):
-        n = 1500 * boost if tier == "quick" else 10000 * boost
+        n = 4000 * boost if tier == "quick" else 10000 * boost
         for _ in range(n):
             neg = rng.random() < 0.35
             comps = []
@@ -1031,7 +1031,7 @@ class DFParse(Op):
     model = False
 
     def gen(self, rng, tier, boost):
-        n = 1200 * boost if tier == "quick" else 8000 * boost
+        n = 3000 * boost if tier == "quick" else 8000 * boost
         for _ in range(n):
             r = rng.random()
             if r < 0.7:
